@@ -657,12 +657,14 @@ fn gen(args: &Args, emit: &mut dyn FnMut(Value)) {
     // it (known finding deep-tree-stack-overflow), and on 8 MiB
     if !args.extra.iter().any(|a| a == "--no-deep-tree") {
         let all = ["insert_deep", "find", "trace", "cache", "clone", "drop_clone", "retain", "remove", "drop"];
-        for (level, n, stack) in [("tree", 1000usize, 2048usize), ("router", 1000, 2048), ("tree", 2500, 8192)] {
+        // measured thresholds on a 2 MiB stack, harness profile (first overflowing N, tree / router level): insert 4 720 / 4 540,
+        // remove 5 710, retain 5 980, clone 7 690, trace 8 085, find > 9 000, drop > 12 000; 8 MiB: insert 18 375 (router)
+        for (level, n, stack) in [("tree", 1000usize, 2048usize), ("router", 1000, 2048), ("tree", 2000, 8192)] {
             emit(json!({"family": "deep_tree", "level": level, "n": n, "stack_kib": stack, "ops": all}));
         }
         if args.tier == "thorough" || args.extra.iter().any(|a| a == "--deep-tree-findings") {
-            for (level, n, stack) in [("router", 6000usize, 2048usize), ("tree", 8000, 2048), ("router", 26000, 8192)] {
-                emit(json!({"family": "deep_tree", "level": level, "n": n, "stack_kib": stack, "ops": all}));
+            for (level, n, stack, ops) in [("router", 6000usize, 2048usize, vec!["insert_deep"]), ("tree", 6500, 2048, vec!["remove"]), ("tree", 6500, 2048, vec!["retain"]), ("tree", 8500, 2048, vec!["clone"]), ("tree", 21000, 8192, vec!["insert_deep"])] {
+                emit(json!({"family": "deep_tree", "level": level, "n": n, "stack_kib": stack, "ops": ops}));
             }
         }
     }
